@@ -241,6 +241,42 @@ def table_progs():
     return progs
 
 
+
+def borrowed_builtin_probes():
+    """Built-in methods reached through call/apply/bind (or a detached reference) with a receiver
+    other than the value they were read from: this is bound by the call form for these too."""
+    grid = [
+        ("array", ["Array.prototype", "[9, 8]"], ["[1, 2, 3]", "['b', 'a']", "arguments"],
+         [("slice", "1"), ("join", "'-'"), ("indexOf", "2"), ("concat", "[7]"), ("includes", "'a'"),
+          ("map", "function (x) { return x + x; }"), ("filter", "function (x, i) { return i > 0; }"),
+          ("reverse", ""), ("push", "5"), ("pop", "")]),
+        ("string", ["'abc'", "''"], ["'xyz'", "' Ab '"],
+         [("charAt", "1"), ("toUpperCase", ""), ("slice", "1"), ("indexOf", "'b'"), ("trim", ""),
+          ("split", "''"), ("replace", "'b', 'Q'"), ("charCodeAt", "0"), ("concat", "'!'")]),
+        ("number", ["(1)", "(0.5)"], ["255", "1.5"], [("toFixed", "1"), ("toString", "16"), ("toString", "")]),
+        ("regexp", ["/a/", "/zz/g"], ["/b/", "/(y)/"], [("test", "'xby'"), ("exec", "'xby'"), ("toString", "")]),
+    ]
+    out = []
+    for kind, sources, receivers, methods in grid:
+        for si, srcv in enumerate(sources):
+            for ri, recv in enumerate(receivers):
+                for m, a in methods:
+                    if recv == "arguments" and m in ("concat", "reverse"):
+                        continue    # their results contain the arguments object itself (C03 finding arguments-is-array)
+                    comma = ", " if a else ""
+                    forms = {
+                        "call": "SRC.%s.call(r%s%s)" % (m, comma, a),
+                        "apply": "SRC.%s.apply(r, [%s])" % (m, a),
+                        "bind": "SRC.%s.bind(r)(%s)" % (m, a),
+                        "detached-call": "(function () { var m = SRC.%s; return m.call(r%s%s); })()" % (m, comma, a),
+                    }
+                    for fname, expr in forms.items():
+                        body = "var r = %s; var out = %s; return [out, typeof r === 'object' && typeof r.length === 'number' ? [r.length, r[0], r[1], r[2], r[3]] : String(r)];" % (recv, expr.replace("SRC", srcv))
+                        src = "(function () { %s })(4, 'a', 2)" % body
+                        out.append(("borrowed-%s-%s-%s-s%d-r%d-%s" % (kind, m, "args" if a else "noargs", si, ri, fname), src))
+    return out
+
+
 EXTRA = [
     ("proto-chain-read", "function A() {} A.prototype.x = 1; function B() {} B.prototype = Object.create(A.prototype); var b = new B(); [b.x, 'x' in b, b.hasOwnProperty('x'), b instanceof A, b instanceof B, A.prototype.isPrototypeOf(b)]"),
     ("write-shadows", "var p = {x: 1}; var c = Object.create(p); c.x = 2; [p.x, c.x, Object.keys(c), Object.keys(p)]"),
@@ -297,6 +333,8 @@ def main(ctx):
         cases.append({"id": h(["table", ident]), "fam": "call-table", "ident": list(ident), "src": src})
     for name, src in EXTRA:
         cases.append({"id": h(["extra", name]), "fam": "extra", "ident": [name], "src": "function tag(x) { return typeof x; }\n" + src})
+    for name, src in borrowed_builtin_probes():
+        cases.append({"id": h(["borrowed", name]), "fam": "borrowed-builtin", "ident": [name], "src": src})
     nh = 2000 if ctx.quick else 15000
     for i in range(nh):
         r = fixed if i % 2 == 0 else rng
@@ -334,7 +372,8 @@ def main(ctx):
     ctx.cov["rule"] = ("call-form x function-kind table (19 forms x 10 kinds), 25 object-model probes, and seeded random histories of 4-14 operations over up to "
                        "5 objects and 3 constructor functions (literal, Object.create, new through prototype chains built by assigning and mutating "
                        "F.prototype, set/delete with dot, string and computed keys, accessors by literal and defineProperty, setPrototypeOf, assign) "
-                       "with a full observation of every live object after every step; non-trivial = agreeing cases")
+                       "with a full observation of every live object after every step; built-in array/string/number/regexp methods borrowed through "
+                       "call/apply/bind/detached references onto another receiver; non-trivial = agreeing cases")
     ctx.cov["families_[cases,disagreements_incl_known]"] = fams
     ctx.cov["observation_steps"] = steps
     ctx.sample(cases[3]["src"][-300:])
